@@ -89,3 +89,64 @@ fn main() {{}}
 UNITS = [VUnit("c10_unpack", ["C10"], "unpacking declaration: collision lookup for every name, const marking", build)]
 UNITS[0].assumes = ["fragment: the loop over the names only; the type checks after it and Assignment::new_multi are not under contract",
                     "what Parser::assignment does with the reported previous declaration is unit c10_assignment", "pest API and sub-parsers abstract; the unreachable! arm is assumed unreachable (grammar)"]
+
+
+# =====================================================================================================================
+# C16 / C03: the bounds guard of an unpacking declaration -- `[a, b, c] = <value of a fixed-shape list type>`
+BOUND_SPEC = r"""
+use vstd::prelude::*;
+verus! {
+pub struct VErr;
+#[verifier::external_body] pub struct Span { x: usize }
+#[verifier::external_body] pub struct IdentV { x: usize }
+#[verifier::external_body] pub struct TypeV { x: usize }
+pub enum ListBound { Numeric(usize), Infinite, NotIndexable }
+pub uninterp spec fn bound_of(t: &TypeV) -> Option<ListBound>;
+impl TypeV { #[verifier::external_body] pub fn has_index_length_property(&self) -> (r: Option<ListBound>) ensures r == bound_of(self) { unimplemented!() } }
+// Vec::swap_remove PANICS when the index is out of range (R8)
+#[verifier::external_body] pub fn swap_remove(v: &mut Vec<Span>, i: usize) -> (r: Span) requires i < old(v)@.len() { unimplemented!() }
+"""
+
+
+def build_bound(repo):
+    from vlib.extract import find_block_after
+    src = Source(repo)
+    log = []
+    f = src.fn(FILE, "assignment_unpack", "impl Parser")
+    body = f["body"]
+    hdr = "if let Some ( ListBound :: Numeric ( upper_bound ) ) = ty . has_index_length_property ( )"
+    try:
+        s, o, c = find_block_after(body, hdr)
+    except Exception as e:
+        raise Undecided(f"assignment_unpack: the bounds guard `{hdr.replace(' ', '')}` not found: {e}")
+    frag = body[s:c + 1]
+    log.append(("R0", "fn assignment_unpack .. { .. if let Some(ListBound::Numeric(upper_bound)) = ty.has_index_length_property() { GUARD } .. }", "fn unpack_bound_guard(idents, spans, ty) { GUARD; Ok(()) }",
+                "fragment: the bounds guard as a function of the names parsed so far and the value's type"))
+    b = translate(frag, [
+        Rule("R3", "return Err ( vec ! [ new_err ( $$a ) ] ) ;", lambda bb: [*(["let", "verif_span", "=", *bb["a"][:bb["a"].index(",")], ";"]), "return Err ( VErr ) ;"], why="diagnostic construction dropped; its span argument is still evaluated (it can panic)"),
+        Rule("R8", "spans . swap_remove ( $$i )", "swap_remove ( & mut spans , $$i )", why="Vec::swap_remove with its panic precondition"),
+    ], log, "assignment_unpack[bounds guard]")
+    check_closed(b, "assignment_unpack[bounds guard]")
+    gen = header(log, f"{FILE}: Parser::assignment_unpack, the bounds guard") + BOUND_SPEC + f"""
+//@ OBL C16.unpack.bound
+// `[a, b, c] = v` where v's type has a last valid position: more names than positions is a diagnostic; as many or fewer names is fine.
+// Neither case may underflow a subtraction or index the span list out of range (a compiler panic).
+pub fn unpack_bound_guard(idents: &Vec<IdentV>, spans: Vec<Span>, ty: &TypeV) -> (r: Result<(), VErr>)
+    requires idents@.len() == spans@.len(), idents@.len() >= 1,          // the grammar gives an unpacking declaration at least one name; one span per name (the loop above)
+    ensures
+        bound_of(ty) matches Some(ListBound::Numeric(ub)) ==> (r is Err <==> idents@.len() - 1 > ub),
+        !(bound_of(ty) matches Some(ListBound::Numeric(_))) ==> r is Ok,
+{{
+    let mut spans = spans;
+{render(b, 1)}
+    Ok(())
+}}
+}} // verus!
+fn main() {{}}
+"""
+    return gen, [Obl("C16.unpack.bound", ["C16", "C03"], fn="Parser::assignment_unpack[bounds guard]", desc="unpacking against a fixed-shape list: too many names is a diagnostic, as many or fewer is accepted; no subtraction underflow, no out-of-range swap_remove")], log
+
+
+U_BOUND = VUnit("c16_unpack_bound", ["C16", "C03"], "unpacking declaration: the bounds guard against a fixed-shape list", build_bound)
+U_BOUND.assumes = ["fragment: the guard only; precondition: at least one name and one span per name (grammar / the loop over the names)", "TypeLayout::has_index_length_property abstract"]
+UNITS.append(U_BOUND)
